@@ -160,16 +160,23 @@ pub mod fs {
         }
     }
 
-    /// A file whose reads, writes and flushes complete when the simulator says so.
+    /// A file whose reads and writes complete when the simulator says so.
+    ///
+    /// Writes behave like tokio's: `poll_write` accepts the bytes at once and the write is
+    /// carried out "in the background" (here: when the simulator fires its gate); its outcome
+    /// is reported by the next write or flush.  A file dropped without a flush leaves its last
+    /// write in flight.
     pub struct File {
-        inner: std::fs::File,
+        inner: std::sync::Arc<std::fs::File>,
         path: PathBuf,
         gate: Option<Gate>,
+        inflight: Option<u64>,
+        last_write_err: Option<i32>,
     }
 
     impl File {
         fn from_parts(inner: std::fs::File, path: PathBuf) -> Self {
-            Self { inner, path, gate: None }
+            Self { inner: std::sync::Arc::new(inner), path, gate: None, inflight: None, last_write_err: None }
         }
         pub async fn open(path: impl AsRef<Path>) -> io::Result<File> {
             let p = path.as_ref();
@@ -216,11 +223,38 @@ pub mod fs {
                 Poll::Pending => Poll::Pending,
             }
         }
+
+        /// Wait for the write in flight, if any, and remember its failure.
+        fn poll_inflight(&mut self, cx: &mut Context<'_>) -> Poll<()> {
+            if let Some(id) = self.inflight {
+                match sim::poll_write_outcome(id, cx) {
+                    Poll::Pending => return Poll::Pending,
+                    Poll::Ready(r) => {
+                        self.inflight = None;
+                        if let Err(errno) = r {
+                            self.last_write_err = Some(errno);
+                        }
+                    }
+                }
+            }
+            Poll::Ready(())
+        }
+    }
+
+    impl Drop for File {
+        fn drop(&mut self) {
+            if let Some(id) = self.inflight.take() {
+                sim::orphan_write(id);
+            }
+        }
     }
 
     impl AsyncRead for File {
         fn poll_read(self: Pin<&mut Self>, cx: &mut Context<'_>, buf: &mut ReadBuf<'_>) -> Poll<io::Result<()>> {
             let me = self.get_mut();
+            if me.poll_inflight(cx).is_pending() {
+                return Poll::Pending;
+            }
             match me.poll_gate(cx, GateKind::Read, None) {
                 Poll::Pending => return Poll::Pending,
                 Poll::Ready(Some(errno)) => return Poll::Ready(Err(io::Error::from_raw_os_error(errno))),
@@ -231,7 +265,7 @@ pub mod fs {
             let dst = buf.initialize_unfilled_to(take);
             // like tokio's blocking-pool implementation: EINTR is retried, never surfaced
             loop {
-                match me.inner.read(dst) {
+                match (&*me.inner).read(dst) {
                     Ok(n) => {
                         buf.advance(n);
                         return Poll::Ready(Ok(()));
@@ -246,28 +280,40 @@ pub mod fs {
     impl AsyncWrite for File {
         fn poll_write(self: Pin<&mut Self>, cx: &mut Context<'_>, buf: &[u8]) -> Poll<io::Result<usize>> {
             let me = self.get_mut();
-            match me.poll_gate(cx, GateKind::Write, Some(buf)) {
-                Poll::Pending => return Poll::Pending,
-                Poll::Ready(Some(errno)) => return Poll::Ready(Err(io::Error::from_raw_os_error(errno))),
-                Poll::Ready(None) => {}
+            // one operation at a time: the previous write has to finish first, and this call
+            // is where its failure surfaces
+            if me.poll_inflight(cx).is_pending() {
+                return Poll::Pending;
+            }
+            if let Some(errno) = me.last_write_err.take() {
+                return Poll::Ready(Err(io::Error::from_raw_os_error(errno)));
             }
             let take = sim::short_len(GateKind::Write, buf.len());
-            sim::note_op(GateKind::Write, &me.path);
-            loop {
-                match me.inner.write(&buf[..take]) {
-                    Err(e) if e.kind() == io::ErrorKind::Interrupted => continue,
-                    r => return Poll::Ready(r),
+            match sim::submit_write(&me.path, me.inner.clone(), buf[..take].to_vec()) {
+                Some(id) => {
+                    me.inflight = Some(id);
+                    Poll::Ready(Ok(take))
+                }
+                None => {
+                    // seam off: plain synchronous write
+                    loop {
+                        match (&*me.inner).write(&buf[..take]) {
+                            Err(e) if e.kind() == io::ErrorKind::Interrupted => continue,
+                            r => return Poll::Ready(r),
+                        }
+                    }
                 }
             }
         }
         fn poll_flush(self: Pin<&mut Self>, cx: &mut Context<'_>) -> Poll<io::Result<()>> {
             let me = self.get_mut();
-            match me.poll_gate(cx, GateKind::Flush, None) {
-                Poll::Pending => return Poll::Pending,
-                Poll::Ready(Some(errno)) => return Poll::Ready(Err(io::Error::from_raw_os_error(errno))),
-                Poll::Ready(None) => {}
+            if me.poll_inflight(cx).is_pending() {
+                return Poll::Pending;
             }
-            Poll::Ready(me.inner.flush())
+            if let Some(errno) = me.last_write_err.take() {
+                return Poll::Ready(Err(io::Error::from_raw_os_error(errno)));
+            }
+            Poll::Ready(Ok(()))
         }
         fn poll_shutdown(self: Pin<&mut Self>, cx: &mut Context<'_>) -> Poll<io::Result<()>> {
             self.poll_flush(cx)
@@ -276,10 +322,10 @@ pub mod fs {
 
     impl AsyncSeek for File {
         fn start_seek(self: Pin<&mut Self>, position: io::SeekFrom) -> io::Result<()> {
-            self.get_mut().inner.seek(position).map(|_| ())
+            (&*self.get_mut().inner).seek(position).map(|_| ())
         }
         fn poll_complete(self: Pin<&mut Self>, _cx: &mut Context<'_>) -> Poll<io::Result<u64>> {
-            Poll::Ready(self.get_mut().inner.stream_position())
+            Poll::Ready((&*self.get_mut().inner).stream_position())
         }
     }
 }
